@@ -30,7 +30,7 @@ func constVal(c *an.Ctx, rule, pkgRel, name string) string {
 }
 
 type storeRule struct {
-	fn    string                                          // RelName of the function allowed to store
+	fn    string                                           // RelName of the function allowed to store
 	check func(c *an.Ctx, fs an.FieldStore) (bool, string) // extra condition on the store; nil = none
 	why   string
 }
